@@ -13,7 +13,9 @@ class Kit:
                  post=None):
         self.pid, self.oracle, self.streams = pid, oracle, streams
         self.n_quick, self.n_thorough = n_quick, n_thorough
-        self.cone, self.rule = cone, rule
+        from . import modelrun as _m
+        self.cone = cone if cone is not None else _m.CONES.get(pid)
+        self.rule = rule
         self.feasible_frac = feasible_frac
         self.make_ops = make_ops
         self.facilities = facilities
